@@ -8,7 +8,7 @@ STMT_REQUESTS = [
     "starvingmutex.go:StarvingMutex.Lock", "starvingmutex.go:StarvingMutex.Unlock", "starvingmutex.go:StarvingMutex.canWrite",
     "dagmutex.go:NewDAGMutex", "dagmutex.go:DAGMutex.RLock", "dagmutex.go:DAGMutex.RUnlock", "dagmutex.go:DAGMutex.Lock",
     "dagmutex.go:DAGMutex.Unlock", "dagmutex.go:DAGMutex.registerMutexes", "dagmutex.go:DAGMutex.registerMutex",
-    "dagmutex.go:DAGMutex.unregisterMutexes", "dagmutex.go:DAGMutex.unregisterMutex",
+    "dagmutex.go:DAGMutex.lookupMutexes", "dagmutex.go:DAGMutex.unregisterMutexes", "dagmutex.go:DAGMutex.unregisterMutex",
     "counter.go:NewCounter", "counter.go:Counter.Get", "counter.go:Counter.Set", "counter.go:Counter.Update",
     "counter.go:Counter.Increase", "counter.go:Counter.Decrease", "counter.go:Counter.WaitIsZero", "counter.go:Counter.WaitIsBelow",
     "counter.go:Counter.WaitIsAbove", "counter.go:Counter.set", "counter.go:Counter.update", "counter.go:Counter.notifySubscribers",
@@ -40,7 +40,8 @@ def regen_skel(ctx):
         f + "starvingmutex.go:StarvingMutex.Lock", f + "starvingmutex.go:StarvingMutex.Unlock",
         f + "dagmutex.go:DAGMutex.RLock", f + "dagmutex.go:DAGMutex.RUnlock",
         f + "dagmutex.go:DAGMutex.Lock", f + "dagmutex.go:DAGMutex.Unlock",
-        f + "dagmutex.go:DAGMutex.registerMutexes", f + "dagmutex.go:DAGMutex.unregisterMutexes",
+        f + "dagmutex.go:DAGMutex.registerMutexes", f + "dagmutex.go:DAGMutex.lookupMutexes",
+        f + "dagmutex.go:DAGMutex.unregisterMutexes",
         f + "dagmutex.go:DAGMutex.unregisterMutex",
         f + "counter.go:Counter.Set", f + "counter.go:Counter.Update", f + "counter.go:Counter.update",
         f + "counter.go:Counter.WaitIsBelow", f + "counter.go:Counter.WaitIsAbove",
@@ -62,11 +63,11 @@ SPEC = {
                  "C17_unlock_unheld_panics", "C17_unlock_held_ok", "C17_monitor_refines_rwlock", "C17_panic_freezes_lock_state", "C17_unlock_unheld_old_witness",
                  "C17_dag_exclusion", "C17_dag_deadlock_free", "C17_dag_no_deadlock", "C17_dag_wellbracketed_no_panic",
                  "C17_dag_unlock_unheld_panics", "C17_dag_unlock_wrong_mode_old_witness",
-                 "C17_dag_composed_monitors", "C17_dag_composed_exclusion", "C17_dag_composed_deadlock_free", "C17_dag_composed_no_panic", "C17_dag_misuse_panic_registry_witness",
+                 "C17_dag_composed_monitors", "C17_dag_composed_exclusion", "C17_dag_composed_deadlock_free", "C17_dag_composed_no_panic", "C17_dag_misuse_panic_preserves_state", "C17_dag_misuse_panic_fixed_witness", "C17_dag_misuse_panic_wrong_mode_witness",
                  "C17_wait_iff_returns_only_if", "C17_wait_iff_no_lost_wakeup", "C17_wait_iff_quiescent",
                  "C17_waitv_refines_wait", "C17_waitv_quiescent", "C17_stack_fifo_conservation", "C17_counter_notifications_chain", "C17_counter_stack_return_values",
                  "C17_driver_outcomes_reachable", "C17_skeleton_starvingmutex", "C17_skeleton_dagmutex", "C17_skeleton_counter", "C17_skeleton_stack", "C17_skeleton_types",
-                 "C17_stmts_NewStarvingMutex", "C17_stmts_StarvingMutex_RLock", "C17_stmts_StarvingMutex_RUnlock", "C17_stmts_StarvingMutex_Lock", "C17_stmts_StarvingMutex_Unlock", "C17_stmts_StarvingMutex_canWrite", "C17_stmts_NewDAGMutex", "C17_stmts_DAGMutex_RLock", "C17_stmts_DAGMutex_RUnlock", "C17_stmts_DAGMutex_Lock", "C17_stmts_DAGMutex_Unlock", "C17_stmts_DAGMutex_registerMutexes", "C17_stmts_DAGMutex_registerMutex", "C17_stmts_DAGMutex_unregisterMutexes", "C17_stmts_DAGMutex_unregisterMutex", "C17_stmts_NewCounter", "C17_stmts_Counter_Get", "C17_stmts_Counter_Set", "C17_stmts_Counter_Update", "C17_stmts_Counter_Increase", "C17_stmts_Counter_Decrease", "C17_stmts_Counter_WaitIsZero", "C17_stmts_Counter_WaitIsBelow", "C17_stmts_Counter_WaitIsAbove", "C17_stmts_Counter_set", "C17_stmts_Counter_update", "C17_stmts_Counter_notifySubscribers", "C17_stmts_NewStack", "C17_stmts_Stack_Push", "C17_stmts_Stack_Pop", "C17_stmts_Stack_Size", "C17_stmts_Stack_PopOrWait", "C17_stmts_Stack_WaitIsEmpty", "C17_stmts_Stack_WaitSizeIsBelow", "C17_stmts_Stack_WaitSizeIsAbove", "C17_stmts_Stack_SignalShutdown"],
+                 "C17_stmts_NewStarvingMutex", "C17_stmts_StarvingMutex_RLock", "C17_stmts_StarvingMutex_RUnlock", "C17_stmts_StarvingMutex_Lock", "C17_stmts_StarvingMutex_Unlock", "C17_stmts_StarvingMutex_canWrite", "C17_stmts_NewDAGMutex", "C17_stmts_DAGMutex_RLock", "C17_stmts_DAGMutex_RUnlock", "C17_stmts_DAGMutex_Lock", "C17_stmts_DAGMutex_Unlock", "C17_stmts_DAGMutex_registerMutexes", "C17_stmts_DAGMutex_registerMutex", "C17_stmts_DAGMutex_lookupMutexes", "C17_stmts_DAGMutex_unregisterMutexes", "C17_stmts_DAGMutex_unregisterMutex", "C17_stmts_NewCounter", "C17_stmts_Counter_Get", "C17_stmts_Counter_Set", "C17_stmts_Counter_Update", "C17_stmts_Counter_Increase", "C17_stmts_Counter_Decrease", "C17_stmts_Counter_WaitIsZero", "C17_stmts_Counter_WaitIsBelow", "C17_stmts_Counter_WaitIsAbove", "C17_stmts_Counter_set", "C17_stmts_Counter_update", "C17_stmts_Counter_notifySubscribers", "C17_stmts_NewStack", "C17_stmts_Stack_Push", "C17_stmts_Stack_Pop", "C17_stmts_Stack_Size", "C17_stmts_Stack_PopOrWait", "C17_stmts_Stack_WaitIsEmpty", "C17_stmts_Stack_WaitSizeIsBelow", "C17_stmts_Stack_WaitSizeIsAbove", "C17_stmts_Stack_SignalShutdown"],
     "trusted_base": [
         "hand-written protocol models Hive/Model/SyncMutex.lean (StarvingMutex monitor), SyncMutexDag.lean (DAGMutex over abstract "
         "per-entity reader/writer locks), SyncMutexWait.lean (Counter/Stack waits); ties: scripted-arrival conformance, stress traces, "
@@ -86,8 +87,9 @@ SPEC = {
         "per-entity abstract reader/writer locks, unregister+unlock as one step",
         "Counter/Stack data layer (Hive/Model/SyncMutexWaitV.lean, the model the driver runs): Wait.step with stack contents (FIFO, ids = push "
         "sequence numbers), popped elements and Set/Update return values per goroutine, subscriber notifications (old,new) attached",
-        "state after a misuse panic: StarvingMutex frozen (internal mutex stays locked); DAGMutex composed model with the partial "
-        "unregistration of RUnlock and the unregistration before a wrong-mode panic, as in the code (known finding)",
+        "state after a misuse panic: StarvingMutex frozen (internal mutex stays locked); DAGMutex composed model = code after the repair "
+        "'unregister only after the unlock has succeeded': Unlock/RUnlock look the mutexes up (validation with multiplicity, registry "
+        "untouched, d.Mutex released before the panic), unlock them, and unregister in a second critical section",
         "regenerated normalised statements of 36 anchored functions pinned by C17_stmts_* (Hive/Props/SyncMutexCode.lean)",
         "liveness is stated as invariants (every eligible waiter has a pending notifier) and absence of deadlock, not as fairness-based eventuality",
     ],
@@ -106,7 +108,9 @@ SPEC = {
                 "Data layer: stack FIFO/conservation, notification chain, return values (C17_stack_fifo_conservation, "
                 "C17_counter_notifications_chain, C17_counter_stack_return_values) over a refinement of the wait monitor "
                 "(C17_waitv_refines_wait), observed per arrival. After a recovered misuse panic the state is observed and probed "
-                "(C17_panic_freezes_lock_state; DAGMutex registry corruption = known finding with Lean witness).",
+                "(C17_panic_freezes_lock_state; C17_dag_misuse_panic_preserves_state: a misused DAGMutex.Unlock/RUnlock panics with "
+                "the registry and every entity's lock state untouched, for a wrong mode at the k-th id of RUnlock with the k-1 read locks "
+                "before it released and all registrations in place - the former known finding, repaired in /repo).",
         "note": "Trusted: Lean kernel; the hand-written models and Go's sync semantics as modelled; the executable DAG oracle of the tie is the abstract-lock model (the composed model is used for the theorems); liveness as invariants + deadlock freedom, no fairness.",
         "technique": "Lean 4 inductive invariants over interleaving protocol models (counting invariants, obligation-holder invariants) "
                      "+ conformance of recorded arrival-order observations and stress traces + regenerated skeleton obligations",
